@@ -29,6 +29,7 @@ type FSFile struct {
 	// per-write provenance for C13: byte ranges not yet synced, with the public-call tag that wrote them
 	unsynced []writeRange
 	shadow   []Value // mapped files: cell contents at the last msync (or at mapping time)
+	mtags    []string // mapped files: tag charged with each dirty cell (see attributeMapped)
 }
 
 type writeRange struct {
@@ -66,6 +67,7 @@ type flockState struct {
 }
 
 type Env struct {
+	tick     int // harness logical clock (verifTick)
 	it       *Interp
 	opts     EnvOpts
 	nodes    map[string]*FSNode
@@ -729,4 +731,62 @@ func (f *FSFile) mappedUnsynced() int {
 
 func (f *FSFile) takeShadow() {
 	f.shadow = append(f.shadow[:0], f.cells...)
+	f.mtags = nil
+}
+
+func (f *FSFile) mappedDirty(i int) bool {
+	if _, bus := f.cells[i].(sigbus); bus {
+		return false
+	}
+	if _, bus := f.shadow[i].(sigbus); bus {
+		if c, ok := f.cells[i].(uint64); ok && c == 0 {
+			return false
+		}
+		return true
+	}
+	return f.cells[i] != f.shadow[i]
+}
+
+// attributeMapped: stores through a mapping are plain memory writes, so they carry no tag when they happen.
+// Whenever the harness changes the tag (and before every query) the cells that became dirty since the last
+// attribution are charged to the tag that was active meanwhile.
+func (f *FSFile) attributeMapped(tag string) {
+	if !f.mapped {
+		return
+	}
+	if tag == "" {
+		tag = "-"
+	}
+	for i := 0; i < len(f.cells) && i < len(f.shadow); i++ {
+		if !f.mappedDirty(i) {
+			continue
+		}
+		for len(f.mtags) <= i {
+			f.mtags = append(f.mtags, "")
+		}
+		if f.mtags[i] == "" {
+			f.mtags[i] = tag
+		}
+	}
+}
+
+// mappedUnsyncedTag counts dirty mapped bytes charged to tags matching the prefix (same rule as for written ranges).
+func (f *FSFile) mappedUnsyncedTag(pre string) int {
+	if !f.mapped {
+		return 0
+	}
+	n := 0
+	for i := 0; i < len(f.cells) && i < len(f.shadow); i++ {
+		if !f.mappedDirty(i) {
+			continue
+		}
+		t := ""
+		if i < len(f.mtags) {
+			t = f.mtags[i]
+		}
+		if pre == "" || (strings.HasPrefix(t, pre) && (t == pre || isDigit(t[len(pre)]))) {
+			n++
+		}
+	}
+	return n
 }
